@@ -1,3 +1,10 @@
 import InToto.Properties.C01
+#print axioms InToto.C01.accepted_means_all_keys_verify
+#print axioms InToto.C01.legacy_signature_binds_enforced_content
+#print axioms InToto.C01.dsse_signature_over_stored_bytes
+#print axioms InToto.C01.dsse_enforced_layout_is_signed_bytes
+#print axioms InToto.C01.rejected_before_anything_runs
+#print axioms InToto.C01.one_bad_key_rejects
+#print axioms InToto.C01.key_order_irrelevant
 #print axioms InToto.C01.no_key_rejected
-#print axioms InToto.C01.no_key_nothing_runs
+#print axioms InToto.C01.signature_stage_example
